@@ -900,11 +900,11 @@ def _fresh(kind, rng, with_items):
         from basictdf import tdfData2D
         if kind == "data2D" and not with_items:
             # the bare constructor, the way a caller starts a block from scratch; only the public data setter is used
-            b = tdfData2D.Data2D(2, 2, 100, 0.0, tdfData2D.Data2DFlags(0))
-            cells = np.empty((2, 2), dtype=object)
-            b.data = cells
-            spec = {"t": "data2D", "format": 1, "nCams": 2, "nFrames": 2, "frequency": 100, "startTime": 0.0, "flags": 0,
-                    "map": [], "cells": [[None, None], [None, None]]}
+            # (no camera yet, so the empty camera map it starts with is the valid one)
+            b = tdfData2D.Data2D(0, 2, 100, 0.0, tdfData2D.Data2DFlags(0))
+            b.data = np.empty((2, 0), dtype=object)
+            spec = {"t": "data2D", "format": 1, "nCams": 0, "nFrames": 2, "frequency": 100, "startTime": 0.0, "flags": 0,
+                    "map": [], "cells": [[], []]}
         else:
             spec = C.small_block_spec(rng, kind, rng.choice([0, 1]))
             if kind == "calib" and not with_items:
@@ -985,7 +985,7 @@ def _snapshot(kind, b):
     if kind == "data2D":
         extra = (list(b._camMap), [[None if c is None else np.asarray(c).tobytes() for c in row] for row in np.asarray(b.data, dtype=object).tolist()])
     elif kind == "calib":
-        extra = [np.asarray(getattr(c, a)).tobytes() for c in its for a in ("focus", "center") if hasattr(c, a)]
+        extra = [np.asarray(getattr(c, a)).tobytes() for c in its for a in ("focus", "optical_center", "rotation_matrix", "translation_vector") if hasattr(c, a)]
     return (ident(its), x, len(its), [_raw_values(kind, it) for it in its], extra)
 
 
@@ -997,8 +997,38 @@ def _mutate(kind, b, rng):
         if ent is None or ent[0] is not b:
             raise LookupError("no spec")
         if kind == "data2D" and rng.random() < 0.3:
-            b._camMap.append(rng.randint(0, 9))      # the only way a caller can fill the camera map (tests/test_data2D.py)
-            return "camera-map-append"
+            # add a camera: map entry (filled in place - no public setter exists, tests/test_data2D.py does the same),
+            # camera count and one more (empty) column of cells, so that the block stays a valid one
+            ch_ = rng.randint(0, 9)
+            old = np.asarray(b.data, dtype=object).reshape(b.nFrames, b.nCams)
+            new = np.empty((b.nFrames, b.nCams + 1), dtype=object)
+            new[:, :b.nCams] = old
+            if isinstance(b._camMap, list):
+                b._camMap.append(ch_)
+            else:                                   # decoded blocks carry the map as an array
+                b._camMap = np.append(b._camMap, np.int16(ch_))
+            b.nCams += 1
+            b.data = new
+            sp = ent[1]
+            sp["nCams"] += 1; sp["map"].append(ch_)
+            for row in sp["cells"]:
+                row.append(None)
+            return "camera-append"
+        if kind == "calib" and (not ent[1]["cams"] or rng.random() < 0.3):
+            # one more camera: record appended to the public list, map re-assigned one entry longer
+            sp = ent[1]
+            donor = C.small_block_spec(rng, "calib", 1)
+            cam = next((c for c in donor["cams"]), None)
+            if cam is None or donor["format"] != sp["format"]:
+                donor = dict(gen.gen_spec(rng, "calib", fmt=sp["format"]))
+                cam = donor["cams"][0] if donor["cams"] else None
+            if cam is None:
+                raise LookupError("no camera spec")
+            ch_ = rng.randint(0, 50)
+            b.cam_data.append(lib.build_item("calib", cam, {}))
+            b.cameras_calibration_map = np.append(np.asarray(b.cameras_calibration_map, dtype=np.int16), np.int16(ch_))
+            sp["cams"].append(cam); sp["map"].append(ch_)
+            return "camera-append"
         r_ = None
         for _ in range(6):
             r_ = edits.inplace_edit(rng, b, ent[1])
